@@ -8,7 +8,7 @@ from . import c02, c06, c07, c12
 
 MODULE = "Dbus.Props.C14"
 THEOREMS = ["oom_changes_nothing", "undo_addOwner", "undo_removePrimary", "undo_swap", "cancel_restores", "replace_then_cancel",
-            "f22_witness", "f23_witness", "pending_cancel_restores", "cancelled_transaction_restores_pending"]
+            "f22_witness", "f23_witness", "pending_cancel_restores", "cancelled_transaction_restores_pending", "cancel_order_matters"]
 
 
 def queue_of(state, name):
